@@ -420,6 +420,7 @@ def emit_stmts(stmts, ind, kind, out, op=None):
 def emit_connect(dst, src, style):
   d = ref_text(dst)
   sv = src.get("name", str(src["const"])) if "const" in src else ref_text(src)          # "name": a struct constant bound to a local
+  if "const" in src and src.get("generic"): sv = f"Bits({dst['w']}, {src['const']})"       # an object of the base class Bits (what K[4:8] or K + 1 yield)
   if style == 0: return f"{d} //= {sv}"
   if style == 1 and "const" not in src: return f"{sv} //= {d}"
   if style == 2: return f"connect({d}, {sv})"
@@ -1420,7 +1421,11 @@ class Gen:
     if k.get("p_const") and (isinstance(t, int) or not whole) and rng.random() < k["p_const"]:
       # tie the signal to a constant (small non-zero values preferred: they coincide with live values of other nets)
       cv = rng.choice([1, 2, 3, mask(p["w"]), rng.getrandbits(p["w"])]) & mask(p["w"])
-      cls["connects"].append([p, {"const": cv}]); return
+      cst = {"const": cv}
+      if k.get("p_const_generic") and rng.random() < k["p_const_generic"]:
+        cst["generic"] = True
+        self.design.setdefault("stats", {}).setdefault("connections_to_base_class_bits_constants", 0); self.design["stats"]["connections_to_base_class_bits_constants"] += 1
+      cls["connects"].append([p, cst]); return
     if whole and not isinstance(t, int) and t[0] == "struct" and rng.random() < k.get("p_const_struct", 0) * (2 if child else 1):
       # tie a whole struct signal to a struct CONSTANT bound to a local name; the same constant object may drive several signals
       scs = cls.setdefault("sconsts", [])
@@ -1450,7 +1455,11 @@ class Gen:
         if r is not None and r["path"] != p["path"]:
           cls["connects"].append([p, r]); self.connect_ranks.add(rank); return
       if rng.random() < 0.3 and (isinstance(t, int) or not whole):
-        cls["connects"].append([p, {"const": rng.getrandbits(p["w"])}]); return
+        cst = {"const": rng.getrandbits(p["w"])}
+        if k.get("p_const_generic") and rng.random() < k["p_const_generic"]:
+          cst["generic"] = True
+          self.design.setdefault("stats", {}).setdefault("connections_to_base_class_bits_constants", 0); self.design["stats"]["connections_to_base_class_bits_constants"] += 1
+        cls["connects"].append([p, cst]); return
     if whole and not isinstance(t, int):
       p = dict(p, struct_target=True, stype=t)
     comb_targets.append((rank, p, list(srcs)))
